@@ -162,11 +162,12 @@ def generate(ctx, known):
         tlc.must_ok(r, "generation (random walks)")
         add(fam, "random-walk", r.printed("BEH"))
     # (d) witnesses of rare conditions (ideal family; a shortest behaviour each)
-    wshape = (2, 4, 1, 2, 6)
-
     def wit(w):
-        c = _cfg(ctx, "w-%s.cfg" % w, wshape, ALL_S, ALL_F, ALL_FORMS, dev=set(), hist=True, view="ViewState",
-                 invs=w, props="")
+        if w == "WitCrossThread":
+            shape, ss, fl, fo = (2, 3, 0, 1, 5), ["on"], [1], ["valid"]
+        else:
+            shape, ss, fl, fo = (1, 3, 1, 1, 4), ["on", "off", "c_RO_0"], [1, 255], ["valid", "zero"]
+        c = _cfg(ctx, "w-%s.cfg" % w, shape, ss, fl, fo, dev=set(), hist=True, view="ViewW", invs=w, props="")
         return w, tlc.tlc(MODULE, c, rundir=ctx.rundir.path, workers=1, timeout_s=300, tag="w-" + w, xmx="3g")
     wl = {}
     with cf.ThreadPoolExecutor(max_workers=5) as ex:
